@@ -28,6 +28,8 @@ func runC11(c *an.Ctx) {
 	r11c(c)
 	r11d(c, x)
 	r11e(c)
+	// shared with C03: the fold reaches the root only if every aggregator forwards every update to its parent
+	c.As(map[string]string{"R03c": "R11f"}, func() { r03c(c) })
 }
 
 // enumConsts returns name->value for the constants of the named type in package rel.
@@ -396,7 +398,7 @@ func r11d(c *an.Ctx, stateTab map[[2]int64]int64) {
 			}
 			switch v := st.Val.(type) {
 			case *ssa.Const:
-				k, _ := constant.Int64Val(v.Value)
+				k, _ := an.Int64Of(v.Value)
 				nShort++
 				// guards: s == K, optionally field != E
 				sEq := false
